@@ -35,7 +35,7 @@ def svd_case(draw):
     index = draw(st.integers(1, d - 1))
     klass = draw(st.sampled_from(['generic', 'generic', 'constructed', 'preorth']))
     cplx = draw(st.booleans())
-    case = {'rows': rows, 'index': index, 'klass': klass, 'cplx': cplx, 'seed': draw(gen.SEED),
+    case = {'rows': rows, 'index': index, 'klass': klass, 'cplx': cplx, 'seed': draw(gen.SEED), 'scale_exp': draw(st.sampled_from([0, 0, 0, -12, -4, 5])),
             'overwrite': draw(st.booleans()), 'layout': draw(gen.LAYOUT)}
     if klass == 'generic':
         case['ranks'] = [1] + [draw(gen.SMALL_RANK) for _ in range(d - 1)] + [1]
@@ -117,6 +117,11 @@ def build_case(case):
 
 def body_svd(case):
     cores = build_case(case)
+    if case.get('scale_exp', 0):
+        # relative thresholds are scale-invariant: rescale the whole tensor
+        cores = [np.array(c) for c in cores]
+        k0 = case['index'] - 1        # the centre core carries the scale (the outer cores may have to stay orthonormal)
+        cores[k0] = cores[k0] * 10.0 ** case['scale_exp']
     t = TT([np.array(c, order='K') for c in cores])
     d, idx = t.order, case['index']
     rows = case['rows']
@@ -139,6 +144,8 @@ def body_svd(case):
         lab.add('real_cut')
     if case['overwrite']:
         lab.add('overwrite')
+    if case.get('scale_exp', 0):
+        lab.add('rescaled')
     if case['flags'] != [True, True]:
         lab.add('no_ortho_flags')
     # guard band: no singular value in the ambiguous zone between 'numerically zero' and 'well above every negligible threshold'
@@ -211,5 +218,5 @@ def nt(labels):
 SUBCHECKS = [
     Sub('svd_pinv', svd_case(), body_svd, nt, quick=600, thorough=8000, shards_quick=8,
         classes=['generic', 'constructed', 'preorth', 'complex', 'inner_split', 'real_cut',
-                 'rank_deficient', 'overwrite', 'no_ortho_flags', 'pinv_compared', 'size1mode']),
+                 'rank_deficient', 'overwrite', 'no_ortho_flags', 'pinv_compared', 'size1mode', 'rescaled']),
 ]
